@@ -73,6 +73,9 @@ def hv_truth(prog: Program, floor: int = 1) -> RuleResult:
                     return True
                 if isinstance(b, ast.Attribute) and b.attr == "bindings":
                     return True
+                # bindings and operation results are keyed by the ids of expressions: X[<expr>._id_] reads a bound value
+                if isinstance(e.slice, ast.Attribute) and e.slice.attr == "_id_":
+                    return True
             if isinstance(e, ast.Call) and isinstance(e.func, ast.Attribute) and e.func.attr == "get":
                 b = e.func.value
                 if isinstance(b, ast.Name) and b.id in hvdict:
